@@ -35,7 +35,7 @@ def applyOp (b : Bundle) : List String → Option Bundle
     let c : Canon := { btype := ← t.toNat?, num := ← nm.toNat?, flags := ← fl.toNat?, crc := ← parseCrc crc, data := ← parseData d }
     some (b.addBlock c)
   | ["setpayload", h] => do some (b.setPayload (← bytesOfHex h))
-  | ["setpayloadblock", fl, h] => do some (b.setPayloadBlock (newPayloadBlock (← fl.toNat?) (← bytesOfHex h)))
+  | ["setpayloadblock", nm, fl, h] => do some (b.setPayloadBlock { newPayloadBlock (← fl.toNat?) (← bytesOfHex h) with num := (← nm.toNat?) })
   | ["setcrc", t] => do some (b.setCrc (← t.toNat?))
   | ["upd", node, rt, now] => do
     some (b.updateExtensions (← parseEidTok node) (← rt.toNat?) (← now.toNat?)).bundle
